@@ -5,7 +5,9 @@ every staging root on disk after each step (model-free), evaluates a model-free 
 builds the Coq term Corr.CheckMultiClient.check_run evaluates.
 
 An interleaving is a list of abstract operations
-    ("new", c, id, width) | ("stage", c, id, path, token) | ("commit", c, id)
+    ("new", c, id, width[, cfg]) | ("stage", c, id, path, token) | ("commit", c, id[, k])
+cfg = index into CFGS (digest algorithm, content directory); k = number naming explicit commit
+metadata (meta_of); a commit without k lets rocfl stamp the version itself (created = now).
     | ("reset", c, id) | ("purge", c, id)
 c = client number (0..), token = number naming the content of the copied file."""
 import hashlib
@@ -33,7 +35,42 @@ def token_of_digest(d):
     if not _DIGESTS:
         for t in range(0, 4000):
             _DIGESTS[hashlib.sha512(token_content(t)).hexdigest()] = t
+            _DIGESTS[hashlib.sha256(token_content(t)).hexdigest()] = t
     return _DIGESTS.get(d.lower(), UNKNOWN_TOKEN)
+
+
+# object-level settings compared by write_new_version besides the padding width (fix 5c18ef1)
+CFGS = [("sha512", "content"), ("sha256", "content"), ("sha512", "stuff")]
+
+
+def cfg_of(inv):
+    k = (inv.get("digestAlgorithm"), inv.get("contentDirectory") or "content")
+    return CFGS.index(k) if k in CFGS else 99
+
+
+def _ts(s):
+    import datetime
+    try:
+        return datetime.datetime.fromisoformat(s.replace("Z", "+00:00")).timestamp()
+    except (ValueError, AttributeError):
+        return s
+
+
+def meta_key(ver):
+    """what Version::same_as compares besides the state: created, message, user"""
+    u = ver.get("user") or {}
+    return (_ts(ver.get("created")), ver.get("message"), u.get("name"), u.get("address"))
+
+
+def meta_key_of(k):
+    m = meta_of(k)
+    return (_ts(m["created"]), m["message"], m["name"], m["address"])
+
+
+def meta_of(k):
+    """explicit commit metadata named by the number k (commit --created/--name/--address/--message)"""
+    return {"name": "user %d" % k, "address": "mailto:u%d@example.org" % k, "message": "message %d" % k,
+            "created": "2021-%02d-%02dT10:%02d:%02dZ" % (1 + k % 12, 1 + (k // 12) % 28, (k // 336) % 60, (k // 20160) % 60)}
 
 
 def parse_vname(s):
@@ -91,11 +128,12 @@ class SessWorld(World):
     def apply(self, op):
         h = "c%d" % op[1]
         if op[0] == "new":
-            r = self.s.call("new", h=h, id=op[2], pad=op[3])
+            alg, cdir = CFGS[op[4]] if len(op) > 4 else CFGS[0]
+            r = self.s.call("new", h=h, id=op[2], pad=op[3], alg=alg, cdir=cdir)
         elif op[0] == "stage":
             r = self.s.call("cp_ext", h=h, id=op[2], src=[self.src_file(op[3], op[4])], dst=op[3])
         elif op[0] == "commit":
-            r = self.s.call("commit", h=h, id=op[2])
+            r = self.s.call("commit", h=h, id=op[2], **(meta_of(op[3]) if len(op) > 3 else {}))
         elif op[0] == "reset":
             r = self.s.call("reset_all", h=h, id=op[2])
         elif op[0] == "purge":
@@ -140,11 +178,14 @@ class CliWorld(World):
     def apply(self, op):
         c = op[1]
         if op[0] == "new":
-            rc, err = self._run(c, ["new", "-z", str(op[3]), op[2]])
+            alg, cdir = CFGS[op[4]] if len(op) > 4 else CFGS[0]
+            rc, err = self._run(c, ["new", "-z", str(op[3]), "-d", alg, "-c", cdir, op[2]])
         elif op[0] == "stage":
             rc, err = self._run(c, ["cp", op[2], self.src_file(op[3], op[4]), "--", op[3]])
         elif op[0] == "commit":
-            rc, err = self._run(c, ["commit", op[2]])
+            m = meta_of(op[3]) if len(op) > 3 else None
+            rc, err = self._run(c, ["commit"] + (["-n", m["name"], "-a", m["address"], "-m", m["message"], "-c", m["created"]] if m else [])
+                                + [op[2]])
         elif op[0] == "reset":
             rc, err = self._run(c, ["reset", op[2]])
         elif op[0] == "purge":
@@ -166,7 +207,7 @@ class CliWorld(World):
 # --------------------------------------------------------------------------- observation (model-free)
 
 def _states(inv):
-    """[(number, width, {path: token})] of an inventory's versions, sorted by number; None if malformed"""
+    """[(number, width, {path: token}, metadata key)] of an inventory's versions, sorted by number; None if malformed"""
     out = []
     try:
         for name, ver in inv["versions"].items():
@@ -177,7 +218,7 @@ def _states(inv):
             for digest, paths in ver["state"].items():
                 for p in paths:
                     st[p] = token_of_digest(digest)
-            out.append((nw[0], nw[1], st))
+            out.append((nw[0], nw[1], st, meta_key(ver)))
     except (KeyError, TypeError, AttributeError):
         return None
     return sorted(out, key=lambda x: x[0])
@@ -220,7 +261,8 @@ def observe_main(root):
             sts = _states(inv)
             head = parse_vname(inv.get("head", "")) if isinstance(inv.get("head"), str) else None
             if sts is not None and head is not None:
-                o.update(inv_ok=True, head=head, vnums=[s[0] for s in sts], states=[s[2] for s in sts])
+                o.update(inv_ok=True, head=head, vnums=[s[0] for s in sts], states=[s[2] for s in sts],
+                         metas=[s[3] for s in sts], cfg=cfg_of(inv))
             oid = inv["id"]
         else:
             oid = "?" + rel
@@ -248,12 +290,12 @@ def observe_staging(stg):
     for oroot in hist.find_object_roots(stg):
         inv = hist.read_inventory(oroot)
         if not isinstance(inv, dict) or not isinstance(inv.get("id"), str):
-            out["?" + os.path.relpath(oroot, stg)] = {"head": (0, 0), "state": {}, "missing": ["unreadable staged inventory"]}
+            out["?" + os.path.relpath(oroot, stg)] = {"head": (0, 0), "state": {}, "missing": ["unreadable staged inventory"], "cfg": 99, "base": []}
             continue
         sts = _states(inv)
         head = parse_vname(inv.get("head", "")) if isinstance(inv.get("head"), str) else None
         if sts is None or head is None:
-            out[inv["id"]] = {"head": (0, 0), "state": {}, "missing": ["malformed staged inventory"]}
+            out[inv["id"]] = {"head": (0, 0), "state": {}, "missing": ["malformed staged inventory"], "cfg": 99, "base": []}
             continue
         hname = inv["head"]
         state = [s for s in sts if s[0] == head[0]]
@@ -265,7 +307,8 @@ def observe_staging(stg):
                         missing.append(cp)
         except (KeyError, TypeError, AttributeError):
             missing.append("malformed staged inventory")
-        out[inv["id"]] = {"head": head, "state": state[0][2] if state else {}, "missing": missing}
+        out[inv["id"]] = {"head": head, "state": state[0][2] if state else {}, "missing": missing, "cfg": cfg_of(inv),
+                          "base": [(s[3], s[2]) for s in sts if s[0] < head[0]]}
     return out
 
 
@@ -293,6 +336,16 @@ class Tracker:
         self.next_lin = 0
         self.base = {}
         self.frozen = {}      # (lineage, version number) -> {file: hash} as first seen
+        self.mtok = {}        # metadata key -> token (explicit metadata k -> k, anything else numbered from 1000000)
+
+    def meta_token(self, key):
+        if key not in self.mtok:
+            m = re.fullmatch(r"message (\d+)", key[1] or "")
+            if m and meta_key_of(int(m.group(1))) == key:
+                self.mtok[key] = int(m.group(1))
+            else:
+                self.mtok[key] = 1000000 + sum(1 for v in self.mtok.values() if v >= 1000000)
+        return self.mtok[key]
 
     def update(self, prev, cur):
         prev_lin = dict(self.lineage)
@@ -357,6 +410,10 @@ def oracle(op, rc, prev, cur, tr, world, validate=True):
             # same directory before and after: same lineage
             if po["head"][1] != w:
                 msgs.append("padding width of %s changed from %d to %d" % (x, po["head"][1], w))
+            if po["cfg"] != o["cfg"]:
+                msgs.append("digest algorithm / content directory of %s changed" % x)
+            if o["metas"][:len(po["metas"])] != po["metas"]:
+                msgs.append("metadata of earlier versions of %s changed" % x)
             for d, files in po["vdirs"].items():
                 if o["vdirs"].get(d) != files:
                     msgs.append("bytes of committed version %s of %s changed" % (d, x))
@@ -389,7 +446,11 @@ def oracle(op, rc, prev, cur, tr, world, validate=True):
                     msgs.append("commit of a new object succeeded although the object exists")
             elif b is not None:
                 now = (lin_before.get(oid), po["head"][0]) if (po is not None and po.get("inv_ok")) else None
-                if now != b:
+                # a re-created object whose versions have the same metadata and the same states as the
+                # staged copy's base (explicitly repeated commit metadata) cannot be told apart from it
+                same_history = (po is not None and po.get("inv_ok") and po["head"][1] == s["head"][1] and po["cfg"] == s["cfg"]
+                                and list(zip(po["metas"], po["states"])) == s["base"])
+                if now != b and not same_history:
                     msgs.append("commit succeeded although the main object was no longer the version the staged changes "
                                 "were based on: based on (lineage, head) %r, main was %r" % (b, now))
         if (c, oid) in cur["stag"]:
@@ -423,14 +484,14 @@ def coq_vstate(st):
     return common.coq_list(["pd %s %d" % (coq_name(p), t) for p, t in sorted(st.items())])
 
 
-def coq_event(op):
+def coq_event(op, m=None):
     c, oid = op[1], coq_name(op[2])
     if op[0] == "new":
-        return "ev %d (New %s %d)" % (c, oid, op[3])
+        return "ev %d (New %s %d %d)" % (c, oid, op[3], op[4] if len(op) > 4 else 0)
     if op[0] == "stage":
         return "ev %d (Stage %s (put %s %d))" % (c, oid, coq_name(op[3]), op[4])
     if op[0] == "commit":
-        return "ev %d (Commit %s)" % (c, oid)
+        return "ev %d (Commit %s %d)" % (c, oid, m)
     if op[0] == "reset":
         return "ev %d (ResetAll %s)" % (c, oid)
     if op[0] == "purge":
@@ -442,13 +503,14 @@ def coq_obs(rc, cur, tr):
     main = []
     for oid, o in sorted(cur["main"].items()):
         if o.get("inv_ok"):
-            main.append("oo %s %d %d %d %s" % (coq_name(oid), tr.lineage.get(oid, 777777), o["head"][0], o["head"][1],
-                                               common.coq_list([coq_vstate(s) for s in o["states"]])))
+            main.append("oo %s %d %d %d %d %s" % (coq_name(oid), tr.lineage.get(oid, 777777), o["head"][0], o["head"][1], o["cfg"],
+                                                  common.coq_list(["cv %d %s" % (tr.meta_token(m), coq_vstate(s))
+                                                                   for m, s in zip(o["metas"], o["states"])])))
         else:
-            main.append("oo %s 777777 0 0 []" % coq_name(oid))
+            main.append("oo %s 777777 0 0 99 []" % coq_name(oid))
     stag = []
     for (c, oid), s in sorted(cur["stag"].items()):
-        stag.append("os %d %s %d %d %s" % (c, coq_name(oid), s["head"][0], s["head"][1], coq_vstate(s["state"])))
+        stag.append("os %d %s %d %d %d %s" % (c, coq_name(oid), s["head"][0], s["head"][1], s["cfg"], coq_vstate(s["state"])))
     code = {"ok": 0, "err": 1, "panic": 2}[rc]
     return "ob %d %s %s" % (code, common.coq_list(main), common.coq_list(stag))
 
@@ -456,7 +518,8 @@ def coq_obs(rc, cur, tr):
 def abstract_view(cur, tr):
     """JSON-friendly summary of an observation (for replay files and samples)"""
     return {
-        "main": {oid: ({"lineage": tr.lineage.get(oid), "head": list(o["head"]), "versions": [sorted(s.items()) for s in o["states"]]}
+        "main": {oid: ({"lineage": tr.lineage.get(oid), "head": list(o["head"]), "config": o["cfg"],
+                        "versions": [[tr.meta_token(m), sorted(s.items())] for m, s in zip(o["metas"], o["states"])]}
                        if o.get("inv_ok") else "unreadable") for oid, o in sorted(cur["main"].items())},
         "staged": {"client %d %s" % k: {"head": list(s["head"]), "state": sorted(s["state"].items())}
                    for k, s in sorted(cur["stag"].items())},
@@ -469,7 +532,7 @@ def run_sequence(world, ops, validate=True):
     """execute ops; returns dict(term, steps=[{op, rc, detail, problems, view}])"""
     tr = Tracker()
     prev = observe(world)
-    steps, obs_terms = [], []
+    steps, obs_terms, events = [], [], []
     for i, op in enumerate(ops):
         rc, detail = world.apply(op)
         cur = observe(world)
@@ -478,15 +541,26 @@ def run_sequence(world, ops, validate=True):
         msgs = oracle(op, rc, prev, cur, tr, world, validate=val)
         tr.update(prev, cur)
         obs_terms.append(coq_obs(rc, cur, tr))
+        m = None
+        if op[0] == "commit":
+            # the metadata token of the commit: the explicit one, or the one rocfl stamped (observed), or unused
+            o = cur["main"].get(op[2])
+            if len(op) > 3:
+                m = op[3]
+            elif rc == "ok" and o is not None and o.get("inv_ok") and o["metas"]:
+                m = tr.meta_token(o["metas"][-1])
+            else:
+                m = 2000000 + i
+        events.append(coq_event(op, m))
         steps.append({"op": list(op), "rc": rc, "detail": detail, "problems": msgs, "view": abstract_view(cur, tr)})
         prev = cur
     term = "check_run %s %s %s" % ("true" if world.dbg else "false",
-                                   common.coq_list([coq_event(o) for o in ops]), common.coq_list(obs_terms))
+                                   common.coq_list(events), common.coq_list(obs_terms))
     return {"term": term, "steps": steps}
 
 
 def parse_check(s):
-    """'[(0, false); (3, true)]' -> [(0, False), (3, True)]"""
+    """'[(0, false); (3, true)]' -> [(0, False), (3, True)]: (disagreement code, commit metadata fresh)"""
     return [(int(a), b == "true") for a, b in re.findall(r"\((\d+), (true|false)\)", s)]
 
 
@@ -661,9 +735,10 @@ def random_sequence(rng, nclients, length, ids, widths):
         if r < 0.30:
             ops.append(t.stage(c, oid))
         elif r < 0.62:
-            ops.append(("commit", c, oid))
+            ops.append(("commit", c, oid, rng.randint(1, 3)) if rng.random() < 0.2 else ("commit", c, oid))
         elif r < 0.77:
-            ops.append(("new", c, oid, rng.choice([w[oid], w[oid], rng.choice(widths)])))
+            wn = rng.choice([w[oid], w[oid], rng.choice(widths)])
+            ops.append(("new", c, oid, wn, rng.randint(1, 2)) if rng.random() < 0.15 else ("new", c, oid, wn))
         elif r < 0.88:
             ops.append(("purge", c, oid))
         else:
@@ -705,6 +780,22 @@ def scenarios(thorough=False):
             out.append(("recreate-%d-versions-width-%d" % (nb, wb), 2, recreate(nb, wb)))
     out.append(("recreate-padded-base", 2, recreate(2, 0, wa=3)))
     out.append(("recreate-padded-both", 2, recreate(2, 3, wa=3)))
+
+    # purge + re-create with exactly head-1 versions and the SAME file names and contents
+    def same_history(wb, kb, metas, wa=0):
+        ops = [("new", 0, OID, wa), ("stage", 0, OID, "a.txt", 1), ("commit", 0, OID) + metas[0:1],
+               ("stage", 0, OID, "b.txt", 2), ("commit", 0, OID) + metas[1:2], ("stage", 0, OID, "c.txt", 3),
+               ("purge", 1, OID), ("new", 1, OID, wb, kb), ("stage", 1, OID, "a.txt", 1), ("commit", 1, OID) + metas[0:1],
+               ("stage", 1, OID, "b.txt", 2), ("commit", 1, OID) + metas[1:2],
+               ("commit", 0, OID) + ((7,) if metas else ()), ("stage", 0, OID, "z.txt", 900), ("commit", 0, OID),
+               ("reset", 0, OID), ("stage", 0, OID, "c.txt", 4), ("commit", 0, OID)]
+        return ops
+    out.append(("recreate-same-states-default-metadata", 2, same_history(0, 0, ())))       # refused (created differs)
+    out.append(("recreate-same-states-same-metadata", 2, same_history(0, 0, (1, 2))))      # accepted: same history
+    out.append(("recreate-same-metadata-other-width", 2, same_history(2, 0, (1, 2))))      # refused (fix 5c18ef1)
+    out.append(("recreate-same-metadata-padded-base", 2, same_history(0, 0, (1, 2), wa=2)))
+    out.append(("recreate-same-metadata-other-digest", 2, same_history(0, 1, (1, 2))))     # refused
+    out.append(("recreate-same-metadata-other-content-dir", 2, same_history(0, 2, (1, 2))))  # refused
 
     # S4-style: staged v2 over a re-created v1
     t = Tok()
